@@ -3,7 +3,9 @@ import os, sys, time, json, subprocess, hashlib
 from concurrent.futures import ProcessPoolExecutor
 
 VERIF = os.path.dirname(os.path.dirname(os.path.dirname(os.path.abspath(__file__))))
-BUILD = os.path.join(VERIF, ".build", "C08")
+sys.path.insert(0, VERIF)
+from vp import kani as _k
+BUILD = os.path.join(_k.BUILD, "C08")
 
 META = {
     "functions_encoded": ["MIR of rlib_io::Reader::{new,read,read_line,read_lines,read_vec,is_eof,refill,skip_whitespace,peek}",
@@ -134,13 +136,13 @@ def build_tools():
     env = dict(os.environ)
     env["CARGO_NET_OFFLINE"] = "true"
     p = subprocess.run(["cargo", "build", "--offline", "--target-dir", os.path.join(BUILD, "ioreplay")],
-                       cwd=os.path.join(VERIF, "harness", "ioreplay"), env=env, stdout=subprocess.PIPE, stderr=subprocess.STDOUT, text=True)
+                       cwd=_k.crate_dir("ioreplay"), env=env, stdout=subprocess.PIPE, stderr=subprocess.STDOUT, text=True)
     if p.returncode != 0:
         raise RuntimeError("ioreplay build failed: " + p.stdout[-500:])
     sys.path.insert(0, VERIF)
     from mirsym import core
     for dbg in (False, True):
-        txt = core.dump_mir("/repo", "rlib/io", os.path.join(BUILD, "mir"), dbg, "dbg" if dbg else "rel")
+        txt = core.dump_mir(_k.REPO, "rlib/io", os.path.join(BUILD, "mir"), dbg, "dbg" if dbg else "rel")
         with open(mir_path(dbg), "w") as f:
             f.write(txt)
 
